@@ -309,6 +309,28 @@ def property_fails(case, want_snap=False):
     return d
 
 
+ETCH_SIGNATURE = "etched-device-erases-dispersion-of-background"
+ETCH_NOOP_CASE = {"etch_noop": True, "N": [4, 3, 4], "jit": False,
+                  "bg": {"mat": {"eps": 4.0, "poles": [{"kind": "lorentz", "w0": 3e15, "g": 1e14, "de": 1.5}]}, "lo": 1, "thick": 2},
+                  "devs": [{"name": "dev0", "lo": [1, 0, 0], "shape": [2, 2, 4], "vox": [1, 2, 2], "kind": "etch", "mats": [{"eps": 1.0}]}],
+                  "hist": [{"dev0": [0.0, 0.0, 0.0, 0.0]}]}
+
+
+def etch_noop_fails(case):
+    """documented behaviour of an etched device: parameters 0 leave the space unmodified (materials = permittivity AND dispersion)"""
+    oc, arrays, params, cfg = build_scene(case)
+    A0 = snapshot(arrays)
+    final = snapshot(run_history(case, oc, arrays, case["hist"]))
+    if not np.allclose(final["inv"], A0["inv"], rtol=1e-14, atol=0):
+        return "etched device with all parameters 0 changed inv_permittivities"
+    c0, cf = stack_coef(A0), stack_coef(final)
+    if c0.shape[0] and not np.array_equal(c0, cf):
+        idx = tuple(int(t) for t in np.argwhere(c0 != cf)[0])
+        return (f"etched device with all parameters 0 (space documented as unmodified) erased the dispersive coefficients of the "
+                f"background inside its slice: stacked coefficient {idx} was {c0[idx]!r}, is {cf[idx]!r}")
+    return None
+
+
 # ------------------------------------------------------------------------------------------- generators
 def gen_mat(rng, tier, dispersive, lo=1.0, hi=12.0):
     e = round(rng.uniform(lo, hi), 3)
@@ -378,6 +400,9 @@ def gen_case(rng, i, big=False):
             mats = [gen_mat(rng, tier, dispersive) for _ in range(rng.randint(2, 4))]
         else:
             mats = [gen_mat(rng, tier, dispersive) for _ in range(2)]
+        if dispersive and rng.chance(0.3):
+            for mm_ in mats:                      # plain device in a dispersive scene
+                mm_.pop("poles", None)
         # distinct leading permittivities keep the material order well defined
         for t, mm_ in enumerate(mats):
             e = mm_["eps"]
@@ -456,7 +481,7 @@ def parse_model(rep, C, Q, N):
 # ------------------------------------------------------------------------------------------- K
 def run(ctx):
     j = J()
-    n = ctx.scale(40, 300)
+    n = ctx.scale(24, 160)
     fixed = [
         # etched device over a background slab, history of 3 (the reset to the backup matters)
         {"N": [4, 3, 4], "bg": {"mat": {"eps": 4.0}, "lo": 1, "thick": 2}, "jit": False,
@@ -468,6 +493,19 @@ def run(ctx):
                   {"name": "dev1", "lo": [1, 1, 1], "shape": [2, 2, 2], "vox": [2, 1, 1], "kind": "etch", "mats": [{"eps": 1.0}]}],
          "hist": [{"dev0": [0.1 * t for t in range(12)], "dev1": [0.2, 0.4, 0.6, 0.8]},
                   {"dev0": [1.0 - 0.05 * t for t in range(12)], "dev1": [1.0, 0.0, 0.5, 0.25]}]},
+    ]
+    lor = {"kind": "lorentz", "w0": 3e15, "g": 1e14, "de": 1.5}
+    fixed += [
+        # plain (non-dispersive) discrete device partly over a dispersive slab: the slab's coefficients must not survive
+        {"N": [4, 3, 5], "bg": {"mat": {"eps": 4.0, "poles": [lor]}, "lo": 1, "thick": 3}, "jit": False,
+         "devs": [{"name": "dev0", "lo": [1, 0, 1], "shape": [2, 2, 2], "vox": [1, 1, 2], "kind": "disc",
+                   "mats": [{"eps": 1.0}, {"eps": 2.5}, {"eps": 6.0}]}],
+         "hist": [{"dev0": [0.2, 1.4, 2.6, 0.9]}, {"dev0": [2.0, 0.0, 1.0, 1.5]}]},
+        # … and the same for a continuous device whose second material is dispersive
+        {"N": [4, 3, 5], "bg": {"mat": {"eps": 4.0, "poles": [lor]}, "lo": 0, "thick": 4}, "jit": False,
+         "devs": [{"name": "dev0", "lo": [0, 1, 2], "shape": [2, 2, 2], "vox": [2, 1, 1], "kind": "cont",
+                   "mats": [{"eps": 2.0}, {"eps": 5.0, "poles": [{"kind": "drude", "wp": 2e15, "g": 1e14}]}]}],
+         "hist": [{"dev0": [0.0, 1.0, 0.25, 0.5]}]},
     ]
     cases = fixed + [gen_case(ctx.rng, i, ctx.thorough) for i in range(n)]
     lines, meta = [], []
@@ -500,6 +538,13 @@ def run(ctx):
         ctx.expect_close("apply:inv", case, final["inv"].ravel(), inv.ravel(), tol=tol)
         if Q:
             ctx.expect_close("apply:coef", case, stack_coef(final).ravel(), co.ravel(), tol=1e-12)
+
+    # known finding: an etched device with x = 0 everywhere must leave everything as it is, dispersion included
+    ctx.case(nontrivial=("etch-noop",), tier="iso", kind_etch=True)
+    ctx.impl_property_evals += 1
+    d = etch_noop_fails(ETCH_NOOP_CASE)
+    if d:
+        ctx.violation(ETCH_NOOP_CASE, d, signature=ETCH_SIGNATURE)
 
     # expand_matrix (jnp.repeat) against the model's repeatList, and the index law
     jnp = j["jnp"]
@@ -578,4 +623,6 @@ def replay(ctx, inp):
         out = np.asarray(j["expand_matrix"](j["jnp"].asarray(mat), tuple(v)))
         ok = all(out[a, b, c] == mat[a // v[0], b // v[1], c // v[2]] for a in range(out.shape[0]) for b in range(out.shape[1]) for c in range(out.shape[2]))
         return None if ok else "expand_matrix index law fails"
+    if inp.get("etch_noop"):
+        return etch_noop_fails(inp)
     return property_fails(inp)
